@@ -148,6 +148,12 @@ func (g *pathGen) recordCall(s *pstate, c *ast.CallExpr, lhs []ast.Expr) {
 	if _, ok := c.Fun.(*ast.FuncLit); ok {
 		name = "func"
 	}
+	// a channel receive among the arguments happens before the call
+	for _, a := range c.Args {
+		if u, ok := a.(*ast.UnaryExpr); ok && u.Op == token.ARROW {
+			s.calls = append(s.calls, "recv "+exprString(g.fset, u.X))
+		}
+	}
 	// timer operations are recorded with their arguments (which duration a timer is armed with matters)
 	if strings.HasSuffix(name, "NewTimer") || strings.HasSuffix(name, ".Reset") {
 		s.calls = append(s.calls, exprString(g.fset, c))
@@ -430,7 +436,7 @@ func (g *pathGen) retString(s pstate, results []ast.Expr) []string {
 func genPaths(pkg *packages.Package) {
 	fns := map[string]bool{"openSent": true, "openConfirm": true, "established": true, "handleNotificationInErr": true,
 		"drainAndResetHoldTimer": true, "sendOpenAndSetHoldTimer": true, "cleanupConnAndReader": true, "sendNotification": true,
-		"sendKeepAlive": true, "startReading": true}
+		"sendKeepAlive": true, "startReading": true, "idle": true, "connect": true, "active": true, "dialPeer": true, "closeDialedConn": true}
 	var all []codePath
 	for _, file := range pkg.Syntax {
 		if filepath.Base(pkg.Fset.Position(file.Pos()).Filename) != "fsm.go" {
